@@ -10,6 +10,8 @@
 //	retry <from ns> <to ns>                        one case of cleaner.go nextDelay
 //	first <ns>                                     delay of the timer set by AddCleanTask
 //	wheel <interval ns> <slots>                    arguments of NewTimingWheel in init()
+//	flag options_fallback <0|1>                    cacheopt.go newOptions ends with `if o.X <= 0 { o.X = defaultX }` for both fields
+//	flag jsonx_usenumber <0|1>                     jsonx.Unmarshal decodes with decoder.UseNumber() (third argument: dir of core/jsonx)
 //
 // Only package time is really imported; every other import is an empty stand-in
 // (type errors outside the inspected expressions are ignored).
@@ -109,14 +111,100 @@ func funcDecl(files []*ast.File, name string) *ast.FuncDecl {
 	return nil
 }
 
+// `if o.<field> <= 0 { o.<field> = <deflt> }` at the top level of fn's body, after the last range loop
+func hasFallback(fn *ast.FuncDecl, field, deflt string) bool {
+	sel := func(e ast.Expr) bool {
+		s, ok := e.(*ast.SelectorExpr)
+		return ok && s.Sel.Name == field
+	}
+	lastLoop := -1
+	for i, st := range fn.Body.List {
+		if _, ok := st.(*ast.RangeStmt); ok {
+			lastLoop = i
+		}
+	}
+	for i, st := range fn.Body.List {
+		ifs, ok := st.(*ast.IfStmt)
+		if !ok || i < lastLoop || ifs.Init != nil || ifs.Else != nil || len(ifs.Body.List) != 1 {
+			continue
+		}
+		be, ok := ifs.Cond.(*ast.BinaryExpr)
+		if !ok || be.Op != token.LEQ || !sel(be.X) {
+			continue
+		}
+		if lit, ok := be.Y.(*ast.BasicLit); !ok || lit.Value != "0" {
+			continue
+		}
+		as, ok := ifs.Body.List[0].(*ast.AssignStmt)
+		if !ok || len(as.Lhs) != 1 || len(as.Rhs) != 1 || !sel(as.Lhs[0]) {
+			continue
+		}
+		if id, ok := as.Rhs[0].(*ast.Ident); ok && id.Name == deflt {
+			return true
+		}
+	}
+	return false
+}
+
+// does fn (or a function of the same files it calls, one level) call <x>.UseNumber() ?
+func callsUseNumber(files []*ast.File, fn *ast.FuncDecl, depth int) bool {
+	res := false
+	ast.Inspect(fn, func(n ast.Node) bool {
+		call, ok := n.(*ast.CallExpr)
+		if !ok {
+			return true
+		}
+		switch f := call.Fun.(type) {
+		case *ast.SelectorExpr:
+			if f.Sel.Name == "UseNumber" {
+				res = true
+			}
+		case *ast.Ident:
+			if depth > 0 {
+				if g := funcDecl(files, f.Name); g != nil && g.Body != nil && callsUseNumber(files, g, depth-1) {
+					res = true
+				}
+			}
+		}
+		return true
+	})
+	return res
+}
+
+func b2i(b bool) int {
+	if b {
+		return 1
+	}
+	return 0
+}
+
 func main() {
-	if len(os.Args) != 3 {
-		fail("usage: c06consts <cache dir> <sqlc dir>")
+	if len(os.Args) != 3 && len(os.Args) != 4 {
+		fail("usage: c06consts <cache dir> <sqlc dir> [<jsonx dir>]")
 	}
 	cpkg, cinfo, cfiles := load(os.Args[1], "cache", []string{"cachenode.go", "cacheopt.go", "cleaner.go"})
 	printConsts(cpkg)
 	spkg, _, _ := load(os.Args[2], "sqlc", []string{"cachedsql.go"})
 	printConsts(spkg)
+
+	no := funcDecl(cfiles, "newOptions")
+	if no == nil || no.Body == nil {
+		fail("cacheopt.go: func newOptions not found")
+	}
+	fmt.Printf("flag options_fallback %d\n", b2i(hasFallback(no, "Expiry", "defaultExpiry") &&
+		hasFallback(no, "NotFoundExpiry", "defaultNotFoundExpiry")))
+	if len(os.Args) == 4 {
+		fset := token.NewFileSet()
+		f, err := parser.ParseFile(fset, filepath.Join(os.Args[3], "json.go"), nil, 0)
+		if err != nil {
+			fail("%v", err)
+		}
+		un := funcDecl([]*ast.File{f}, "Unmarshal")
+		if un == nil || un.Body == nil {
+			fail("jsonx/json.go: func Unmarshal not found")
+		}
+		fmt.Printf("flag jsonx_usenumber %d\n", b2i(callsUseNumber([]*ast.File{f}, un, 2)))
+	}
 
 	// nextDelay: switch delay { case X: return Y, true ... default: return 0, false }
 	nd := funcDecl(cfiles, "nextDelay")
